@@ -55,6 +55,8 @@ type keySharePrivateKeys struct {
 	ecdhe      *ecdh.PrivateKey
 	mlkem      *mlkem.DecapsulationKey768
 	mlkemEcdhe *ecdh.PrivateKey // [uTLS] seperate ecdhe key for pq keyshare in line with Chrome, instead of reusing ecdhe key like stdlib
+	// [uTLS] keys of the classical key shares sent after the first one, by group
+	ecdheKeys map[CurveID]*ecdh.PrivateKey
 }
 
 const x25519PublicKeySize = 32
